@@ -494,6 +494,18 @@ def rule_overrides(program, ctx, prop=P, rid="C07.overrides"):
                                        f"sees its default instead (for `changed`: None = nothing to do)"))
                 else:
                     ctx.ok(rid, c, f"{ci.node.name}.{name}: all named parameters forwarded to super()")
+            # the base implementation runs for every event: no normal return of the override that has not been through super()
+            cfg = cfg_of(fn)
+            from ..core import enclosing_stmt
+            from ..lib import NORMAL
+            snodes = {n_: set(NORMAL) for c in sups for n_ in cfg.nodes_of(enclosing_stmt(c))}
+            path = cfg.find_path([cfg.entry], [cfg.exit], avoid_nodes=list(snodes), kinds=NORMAL)
+            if path:
+                last = next((cfg.ast_of(n_) for n_ in reversed(path[:-1]) if cfg.ast_of(n_) is not None), fn)
+                ctx.bad(finding_at(prop, rid, last, f"{ci.node.name}.{name} can return without calling super().{name}: for those events the base class' work (tag rows, identity table, "
+                                   "NIP-09 deletion, ephemeral/expiration handling) is skipped", path=cfg.describe_path(path)[-4:], text=f"{ci.node.name}.{name} skips super"))
+            else:
+                ctx.ok(rid, fn, f"{ci.node.name}.{name}: super().{name} on every returning path")
     if not n:
         ctx.floors[rid] = 0
         ctx.info(rid, program.cls("nostr_relay.storage.db:DBStorage").node, "no delegating overrides")
